@@ -1237,3 +1237,47 @@ Proof.
   - exact Hseps.
   - exact Hw0.
 Qed.
+
+(* ================================================================ a float match always ends at a delimiter *)
+Definition float_end_ok (E : rxenv) (rest : list N) : Prop :=
+  match rest with [] => True | c :: _ => is_word E c = false /\ c <> 46%N end.
+
+Lemma tail_in_delimited E (Hic : e_ignorecase E = false) st st' :
+  In st' (ends E TAIL st) -> st' = st /\ float_end_ok E (snd st).
+Proof.
+  unfold TAIL. intros Hin. apply ends_seq_in in Hin as (mid & Hmid & Hin).
+  apply ends_lookahead_neg_in in Hin as [-> Hstop].
+  assert (Hms : mid = st).
+  { cbn [ends] in Hmid. destruct (back 1 st); [destruct (xorb false _)|]; cbn in Hmid; destruct Hmid as [<-|[]] || destruct Hmid; reflexivity. }
+  subst mid. split; [reflexivity|]. destruct (snd st) as [|c t]; [exact I|]. cbn [stops float_end_ok] in *.
+  rewrite (mem_WD E Hic) in Hstop. apply orb_false_iff in Hstop as [Hw Hd]. split; [exact Hw | apply N.eqb_neq; exact Hd].
+Qed.
+
+Theorem float_match_delimited u t pre text n :
+  t = TFLOAT \/ t = TSTRICTFLOAT ->
+  bt_match (src_env u) t pre text = Some (t, n) ->
+  exists lit rest, text = lit ++ rest /\ length lit = n /\ float_end_ok (src_env u) rest.
+Proof.
+  intros Ht Hm.
+  assert (Hrx : exists r, bt_rx t = Some r /\ rx_match (src_env u) r pre text = Some n /\
+                          exists a, r = RSeq SIGN (RSeq a TAIL) \/ exists b, r = RSeq SIGN (RSeq a (RSeq b TAIL))).
+  { destruct Ht as [-> | ->]; cbn [bt_match] in Hm; unfold leaf_match in Hm; cbn [bt_rx] in Hm.
+    - exists rx_FLOAT. split; [reflexivity|]. split.
+      + destruct (rx_match (src_env u) rx_FLOAT pre text) as [[|k]|]; try discriminate. injection Hm as <-. reflexivity.
+      + eexists. right. eexists. apply rx_FLOAT_shape.
+    - exists rx_STRICTFLOAT. split; [reflexivity|]. split.
+      + destruct (rx_match (src_env u) rx_STRICTFLOAT pre text) as [[|k]|]; try discriminate. injection Hm as <-. reflexivity.
+      + eexists. left. apply rx_STRICTFLOAT_shape. }
+  destruct Hrx as (r & _ & Hrm & a & Hshape).
+  destruct (rx_match_prefix _ _ _ _ _ Hrm) as (m & rest' & Htext & Hlen & Hfirst).
+  exists m, rest'. split; [exact Htext|]. split; [exact Hlen|].
+  unfold rx_first in Hfirst.
+  assert (Hin : In (rev m ++ pre, rest') (ends (src_env u) r (pre, text))).
+  { destruct (ends (src_env u) r (pre, text)) as [|x l]; [discriminate|]. injection Hfirst as ->. left. reflexivity. }
+  destruct Hshape as [-> | [b ->]].
+  - apply ends_seq_in in Hin as (m1 & _ & Hin). apply ends_seq_in in Hin as (m2 & _ & Hin).
+    apply (tail_in_delimited _ (src_env_ic u)) in Hin as [<- Hok]. exact Hok.
+  - apply ends_seq_in in Hin as (m1 & _ & Hin). apply ends_seq_in in Hin as (m2 & _ & Hin).
+    apply ends_seq_in in Hin as (m3 & _ & Hin).
+    apply (tail_in_delimited _ (src_env_ic u)) in Hin as [<- Hok]. exact Hok.
+Qed.
